@@ -26,7 +26,7 @@ pub fn def() -> PropDef {
         id: "C13",
         run,
         quick_runs: 12000,
-        thorough_runs: 300_000,
+        thorough_runs: 1_000_000,
         level: "exploration",
         rule: "a live daemon driven by the real Frontend (REPLY_ACK + NEED_REPLY) through a history of 1..10 of {SET_MEM_TABLE with 1..=8 regions, ADD_MEM_REG, REM_MEM_REG of an existing / absent / size-mismatched region, SET_VRING_ADDR probe}; geometry from the tape: 1..64 pages, non-zero page-aligned mmap offsets, guest ranges on a small lattice so that adjacent, overlapping, duplicate and unordered layouts occur, synthetic user addresses anywhere in 64-bit space; faults: an eventfd instead of a mappable file (mmap fails by a real input); after a failed update the connection is re-established (the daemon stops serving on a failed request) and the history continues; oracle: reference table (sorted map + translation list) vs the memory handle passed to update_memory, bytes written through the memfd read back through GuestMemory and vice versa at region starts/ends/gaps, queue addresses sampled inside handle_event after a probe; non-trivial = history has >= 2 steps",
         assumptions: ASSUME,
